@@ -21,8 +21,9 @@ OUTSIDE = SIM_OUTSIDE + ['the SIGINT registry', 'real sockets, TLS, proxies and 
 NOT_CONSTRAINED = ['an OPEN packet whose JSON lacks fields (sid, pingInterval, ...)']
 ASSUMPTIONS = ['cooperative scheduling only; virtual integer time']
 
-CONNECT = ('ok-polling', 'ok-websocket', 'ok-upgrade', 'upgrade-refused', 'upgrade-bad-pong', 'upgrade-no-pong', 'refuse', 'status400-json',
-           'status500', 'garbage', 'bad-packet', 'non-open', 'empty', 'ws-refuse', 'ws-non-open', 'open+close', 'hang', 'ws-no-open')
+CONNECT = ('ok-polling', 'ok-websocket', 'ok-upgrade', 'upgrade-refused', 'upgrade-bad-pong', 'upgrade-no-pong', 'upgrade-refused-timeout',
+           'upgrade-refused-oserror', 'refuse', 'status400-json',
+           'status500', 'garbage', 'bad-packet', 'non-open', 'empty', 'ws-refuse', 'ws-non-open', 'open+close', 'hang', 'ws-no-open', 'ws-refuse-timeout', 'ws-refuse-oserror')
 ENDS = ('client-disconnect', 'server-close-packet', 'silence', 'transport-drop', 'failed-post', 'poll-500', 'poll-garbage',
         'disconnect-in-message-handler', 'ws-close-frame', 'ws-eof', 'disconnect-in-connect-handler', 'disconnect-abort',
         'disconnect-post-in-flight')
@@ -40,16 +41,20 @@ def _configure(fs, conn):
     transports = None
     if conn == 'ok-polling':
         fs.upgrades = []
-    elif conn in ('ok-websocket', 'ws-refuse', 'ws-non-open', 'ws-no-open'):
+    elif conn in ('ok-websocket', 'ws-refuse', 'ws-non-open', 'ws-no-open', 'ws-refuse-timeout', 'ws-refuse-oserror'):
         transports = ['websocket']
-        if conn == 'ws-refuse':
+        if conn.startswith('ws-refuse'):
             fs.ws_mode = 'refuse'
+            fs.ws_refuse_kind = {'ws-refuse': 'ws', 'ws-refuse-timeout': 'timeout', 'ws-refuse-oserror': 'oserror'}[conn]
         elif conn == 'ws-non-open':
             fs.ws_mode = 'non-open'
         elif conn == 'ws-no-open':
             fs.ws_mode = 'no-open'
-    elif conn == 'upgrade-refused':
+    elif conn.startswith('upgrade-refused'):
+        # (the socket-level failure kinds apply to the threaded client; the asyncio client's library reports them as its own
+        # connection error)
         fs.ws_mode = 'refuse'
+        fs.ws_refuse_kind = {'upgrade-refused': 'ws', 'upgrade-refused-timeout': 'timeout', 'upgrade-refused-oserror': 'oserror'}[conn]
     elif conn == 'upgrade-bad-pong':
         fs.probe_reply = '3nope'
     elif conn == 'upgrade-no-pong':
@@ -61,7 +66,8 @@ def _configure(fs, conn):
     return transports
 
 
-ESTABLISHED = ('ok-polling', 'ok-websocket', 'ok-upgrade', 'upgrade-refused', 'upgrade-bad-pong', 'upgrade-no-pong')
+ESTABLISHED = ('ok-polling', 'ok-websocket', 'ok-upgrade', 'upgrade-refused', 'upgrade-bad-pong', 'upgrade-no-pong', 'upgrade-refused-timeout',
+               'upgrade-refused-oserror')
 
 
 def _expect_transport(conn):
@@ -269,7 +275,7 @@ def _lifecycle(cfl, ci, ei, second):
 @cond(quick=dict(timeout=170, parts=dict(C=[0, 1])), thorough=dict(timeout=600, parts=dict(C=[0, 1])))
 def lifecycle(cfl: int, ci: int, ei: int, second: bool) -> str:
     """
-    pre: cfl == P.C and 0 <= ci < len(CONNECT) and 0 <= ei < len(ENDS) and (ci <= 5 or ei == 0)
+    pre: cfl == P.C and 0 <= ci < len(CONNECT) and 0 <= ei < len(ENDS) and (ci <= 7 or ei == 0)
     post: _ == ''
     """
     return verdict(untraced(_lifecycle, cfl, ci, ei, second))
